@@ -367,10 +367,14 @@ func scenSvcContext(seed uint64, e *svcEnv, idx int, directed string) {
 	call(r, "dispose")
 	time.Sleep(3 * time.Millisecond)
 	s.closeStdin()
-	if !s.waitExit(15 * time.Second) {
+	exitedOK := s.waitExit(15 * time.Second)
+	if !exitedOK {
 		e.st.Fail("service-did-not-exit-after-stdin-closed", desc, "still running 15s after dispose and stdin close; transcript: "+trString(s.transcript()), "process exits")
 	}
 	s.hwg.Wait()
+	if s.crashText() == "" {
+		e.addTranscript(s.transcript(), exitedOK)
+	}
 	tr := s.transcript()
 	desc["transcript"] = trString(tr)
 	if ct := s.crashText(); ct != "" {
